@@ -216,6 +216,67 @@ func attrValueStepsKnown(b *world.BodySpec) bool {
 	return true
 }
 
+func collectLabelCounts(b *world.BodySpec, out map[string]map[int]bool, kinds map[string]map[string]bool, depth int) {
+	if b == nil || depth > 12 {
+		return
+	}
+	for _, a := range b.Attrs {
+		if kinds[a.Name] == nil {
+			kinds[a.Name] = map[string]bool{}
+		}
+		k := ""
+		if a.Cons != nil {
+			k = a.Cons.K
+		}
+		kinds[a.Name][k] = true
+	}
+	for _, bl := range b.Blocks {
+		if out[bl.Type] == nil {
+			out[bl.Type] = map[int]bool{}
+		}
+		out[bl.Type][len(bl.Labels)] = true
+		collectLabelCounts(bl.Body, out, kinds, depth+1)
+		for _, d := range bl.Dep {
+			collectLabelCounts(d.Body, out, kinds, depth+1)
+		}
+	}
+}
+
+// collectStepAttrs: names of attributes some block address takes a step from.
+func collectStepAttrs(b *world.BodySpec, out map[string]bool, depth int) {
+	if b == nil || depth > 12 {
+		return
+	}
+	for _, bl := range b.Blocks {
+		if bl.Addr != nil {
+			for _, st := range bl.Addr.Steps {
+				if st.K == "attrvalue" {
+					out[st.Name] = true
+				}
+			}
+		}
+		collectStepAttrs(bl.Body, out, depth+1)
+		for _, d := range bl.Dep {
+			collectStepAttrs(d.Body, out, depth+1)
+		}
+	}
+}
+
+func hasKValue(e *world.Expr, k string) bool {
+	if e == nil {
+		return false
+	}
+	if e.K == k {
+		return true
+	}
+	for _, a := range e.A {
+		if hasKValue(a, k) {
+			return true
+		}
+	}
+	return false
+}
+
 func (o *C19) Check(x *h.Exec, ev *h.Event) {
 	c := ev.Check
 	for pi, p := range x.S.Paths {
@@ -224,20 +285,60 @@ func (o *C19) Check(x *h.Exec, ev *h.Event) {
 		}
 		ok := len(p.Files) > 0
 		for _, f := range p.Files {
-			if f.Rendered == nil || !f.ParseOK || f.Spec == nil || f.Spec.JSON || f.Spec.Raw != nil || !world.ItemsJSONExpressible(f.Spec.Items) {
+			switch {
+			case f.Rendered == nil || f.Spec == nil || f.Spec.JSON || f.Spec.Raw != nil:
 				ok = false
+				x.Cov.Probe("outside:file_kind")
+			case !f.ParseOK:
+				ok = false
+				x.Cov.Probe("outside:does_not_parse")
+			case !world.ItemsJSONExpressible(f.Spec.Items):
+				ok = false
+				x.Cov.Probe("outside:items:" + world.WhyNotJSON(f.Spec.Items))
 			}
 		}
 		if !ok {
 			x.Cov.Probe("paths_outside_fragment")
 			continue
 		}
-		known, certain := schemaKnownNames(p)
+		known, certain0 := schemaKnownNames(p)
+		certain := true
 		if !attrValueStepsKnown(p.Spec.Schema) {
-			certain = false
+			certain0 = false
+			x.Cov.Probe("uncertain:attrvalue_steps")
 		}
 		// an address step taken from an attribute value that is not a plain string
 		// literal: JSON evaluates "${x}" without variables to the literal text
+		// (anywhere, also inside the content of dynamic blocks the model skips)
+		stepAttrs := map[string]bool{}
+		collectStepAttrs(p.Spec.Schema, stepAttrs, 0)
+		// JSON nests blocks by label, so a block written with another number of
+		// labels than a schema of that block type declares is another structure.
+		// Which schema the library consults depends on the feature (static body
+		// for inferred bodies, merged body elsewhere) and the content of dynamic
+		// blocks is not modelled: any declaration of the type anywhere counts.
+		lc := map[string]map[int]bool{}
+		attrKinds := map[string]map[string]bool{}
+		collectLabelCounts(p.Spec.Schema, lc, attrKinds, 0)
+		for _, f := range p.Files {
+			world.WalkItems(f.Spec.Items, func(it *world.Item, d int) {
+				if it.Block == nil || it.Block.Type == "dynamic" || it.Block.Type == "content" {
+					return
+				}
+				for n := range lc[it.Block.Type] { // maporder:ok (any mismatch)
+					if n != len(it.Block.Labels) {
+						certain = false
+					}
+				}
+			})
+		}
+		for _, f := range p.Files {
+			world.WalkItems(f.Spec.Items, func(it *world.Item, d int) {
+				if it.Attr != nil && stepAttrs[it.Attr.Name] && (it.Attr.Expr == nil || it.Attr.Expr.K != "str" || strings.Contains(it.Attr.Expr.S, "${")) {
+					certain = false
+				}
+			})
+		}
 		for _, f := range p.Files {
 			model.Walk(p.Spec.Schema, f.Spec.Items, func(mc *model.Ctx) {
 				// a block written in a body that accepts any attribute cannot be told
@@ -245,6 +346,49 @@ func (o *C19) Check(x *h.Exec, ev *h.Event) {
 				if mc.Body != nil && mc.Body.Any != nil {
 					for _, it := range mc.Items {
 						if it.Block != nil {
+							certain = false
+						}
+					}
+				}
+				if mc.Body != nil {
+					// a name the effective schema declares both as attribute and as
+					// block (static body vs dependent body) is ambiguous in JSON
+					for _, bl := range mc.Body.Blocks {
+						if mc.Body.Attr(bl.Type) != nil {
+							certain = false
+						}
+					}
+					// an item written as the other kind than the schema declares
+					// (block under an attribute's name or the reverse) reads as the
+					// declared kind in JSON
+					for _, it := range mc.Items {
+						if it.Block != nil && mc.Body.Attr(it.Block.Type) != nil {
+							certain = false
+						}
+						if it.Attr != nil && mc.Body.Block(it.Attr.Name) != nil {
+							certain = false
+						}
+					}
+					// JSON has no keywords: "auto" is a string as well, so under
+					// anything but a plain keyword constraint the twin is another value
+					for _, it := range mc.Items {
+						if it.Attr == nil {
+							continue
+						}
+						a := mc.Body.Attr(it.Attr.Name)
+						// (static and dependent bodies may declare the name differently
+						// and features consult either: every declaration counts)
+						for k := range attrKinds[it.Attr.Name] { // maporder:ok (any mismatch)
+							if (hasKValue(it.Attr.Expr, "kw") && k != "kw") || (hasKValue(it.Attr.Expr, "type") && k != "typedecl") {
+								certain = false
+							}
+						}
+						if hasKValue(it.Attr.Expr, "kw") && (a == nil || a.Cons == nil || a.Cons.K != "kw") {
+							certain = false
+						}
+						// the same for type expressions: "number" is a string in JSON,
+						// a bare word (reference) in native syntax
+						if hasKValue(it.Attr.Expr, "type") && (a == nil || a.Cons == nil || a.Cons.K != "typedecl") {
 							certain = false
 						}
 					}
@@ -265,14 +409,15 @@ func (o *C19) Check(x *h.Exec, ev *h.Event) {
 			})
 		}
 		if !certain {
+			x.Cov.Probe("uncertain:model")
+		} else if !certain0 {
+			x.Cov.Probe("uncertain:" + whyUncertain)
+		}
+		if !certain || !certain0 {
 			// label counts that differ from the schema or key attributes written
 			// as references: what JSON decodes there is not defined
 			x.Cov.Probe("paths_uncertain")
 			continue
-		}
-		knownSet := map[string]bool{}
-		for _, k := range known {
-			knownSet[k] = true
 		}
 		x.Cov.Probe("paths_compared")
 		// the twin: same model, files rendered as JSON
@@ -315,8 +460,13 @@ func (o *C19) Check(x *h.Exec, ev *h.Event) {
 					world.WalkItems(f.Items, func(it *world.Item, d int) {
 						if it.Attr != nil {
 							it.Attr.Expr.Walk(func(e *world.Expr) {
-								if e.K == "str" {
+								if e.K == "str" || e.K == "kw" {
 									lits["L|"+e.S] = true
+								}
+								if e.K == "raw" {
+									if v, ok := world.RawLiteralString(e.S); ok {
+										lits["L|"+v] = true
+									}
 								}
 							})
 						}
@@ -327,10 +477,12 @@ func (o *C19) Check(x *h.Exec, ev *h.Event) {
 					inA[s]++
 				}
 				var fb []string
+				kept := map[string]int{}
 				for _, s := range b {
-					if lits[s] && inA[s] == 0 {
-						continue
+					if lits[s] && kept[s] >= inA[s] {
+						continue // surplus copies: legacy reading of a string literal
 					}
+					kept[s]++
 					fb = append(fb, s)
 				}
 				b = fb
@@ -342,10 +494,19 @@ func (o *C19) Check(x *h.Exec, ev *h.Event) {
 						na = append(na, s)
 					}
 				}
-				// JSON is decoded through the schema: compare the schema-known outline
+				// JSON is decoded through the schema: the native outline restricted to
+				// the items the effective schema knows at their place (model) is what
+				// the JSON rendering must show
+				nat := map[string]int{}
 				for _, n := range symNames(na) {
-					if knownSet[n] {
+					nat[n]++
+				}
+				for _, n := range known {
+					if nat[n] > 0 {
+						nat[n]--
 						a = append(a, n)
+					} else {
+						a = append(a, n+" <not in the native outline>")
 					}
 				}
 				for _, n := range symNames(rj.Val.([]decoder.Symbol)) {
